@@ -4,7 +4,7 @@ The statement is an implication between predicates on link state.  Each predicat
 code (path conditions of the selector loops, return formulas of the two `any` closures, the value stored to
 `stall_gated`) and the chain of implications is decided propositionally.
 """
-from ..ctx import is_iter_next, CONN, is_call, is_field, sname
+from ..ctx import full_slice_element, is_iter_next, CONN, is_call, is_field, sname
 from ..expr import show, walk
 from ..linkpred import LINK, NOW, LinkSpace, closure_rt, find_link_and_now, mapping_for
 from ..pathcond import calls_to, field_stores
@@ -218,8 +218,8 @@ def d2b_flag_never_stale(ctx):
         ctx.chk.ob("D2", "every iteration of the loop stores the flag", all(cfg.dominates(bb, t) for t in backs), "", key="D2:flag-store-each-iteration", loc=s.get("loc"))
         # the loop ranges over the whole slice
         link = fa.val_place({"l": s["p"]["l"], "proj": s["p"]["proj"][:-1]}, (bb, si))
-        its = [x for x in walk(link) if is_call(x, name_contains="<impl [T]>::iter_mut")]
-        ctx.chk.ob("D2", "the flag loop ranges over every link", bool(its) and its[0][2] == (("param", 1),), show(link, gate.names)[:120], key="D2:flag-loop-full-slice", loc=s.get("loc"))
+        ctx.chk.ob("D2", "the flag loop ranges over every link (plain iteration, no filtering adaptor)", full_slice_element(link, ("param", 1)) is not None,
+                   show(link, gate.names)[:160], key="D2:flag-loop-full-slice", loc=s.get("loc"))
         heads.add(head)
     ctx.chk.floor("D2", "loops that recompute stall_gated", len(heads), 2)
     leak = cfg.returns_reachable_avoiding(heads)
